@@ -74,6 +74,13 @@ Theorem register_order_multiplicity_insensitive : forall (hash : str -> str) (op
   Forall2 obs_same (run hash ops) (run hash ops').
 Proof. exact C08_proofs.register_order_multiplicity_insensitive_lemma. Qed.
 
+(* MustRegister(c1..cn) = Register in order, stop at (and report) the first rejected collector; it is
+   an operation of [run] / [spec_run] (OMust), so register_spec covers it.  An instance: *)
+Example must_register_example :
+  run hash_id [ORegister 0 [ex_a]; OMust [(1, [ex_n]); (2, [ex_a]); (3, [ex_w])]; OGather; ORegister 3 [ex_w]] =
+  [BReg RNil; BReg (RAlready 0); BGather [[109]; [110]]; BReg RNil].
+Proof. exact C08_proofs.must_register_example_lemma. Qed.
+
 (* ... but which of the two rejection messages is given does (first offending descriptor wins) *)
 Example error_kind_order_dependent :
   run hash_id [ORegister 0 [ex_a]; ORegister 1 [ex_bad; ex_b]] = [BReg RNil; BReg RInvalid] /\
